@@ -319,7 +319,10 @@ def run_check(pid, tier, master_seed, jobs, n_override=None, wall_override=None)
         from sim.run import Sim
         sim = Sim('shrink.%s' % pid)
         try:
-            for sig, msg, case, seed in new_viol[:8]:
+            if len(new_viol) > 12:
+                lines.append('(%d distinct violation signatures; minimising and writing replay files for the first 12: %s)'
+                             % (len(new_viol), ' '.join(s for s, _m, _c, _s in new_viol[12:40])))
+            for sig, msg, case, seed in new_viol[:12]:
                 try:
                     small, ok = shrink(mod, sim, case, sig)
                 except Exception:
